@@ -70,7 +70,7 @@ impl Prop for C15 {
         (any_graph_strategy(tier.pick(20, 40)), vec(any::<u8>(), 0..7), prop_oneof![1 => 0u8..6, 1 => any::<u8>()]).prop_map(|(src, subset, w)| DerivCase { src, subset, w }).boxed()
     }
     fn random_cases(&self, tier: Tier) -> u32 {
-        tier.pick(15_000, 400_000)
+        tier.pick(100_000, 1_000_000)
     }
     fn check(&self, case: &DerivCase) -> Outcome {
         let mut out = Outcome::new();
